@@ -207,8 +207,11 @@ CRecv == /\ resq # <<>>
          /\ UNCHANGED <<outcome, stopOnError, cancel, di, dpc, queue, chanOpen, wst, wjob, jst, jres, todo, running,
                         completed, failed, senders, summary, opRuns, recorded, startedAtRecord, preCancel>>
 
-\* the user cancels the batch (possible at any moment through the shared flag)
-UserCancel == /\ AllowUserCancel /\ ~cancel
+\* the user cancels the batch (possible at any moment through the shared flag).  cancel() is a plain store of
+\* TRUE: it may come after a stop-on-error failure (or an earlier cancel()) has already set the flag, and is then
+\* a stuttering step - it is NOT disabled.  (A guard ~cancel here once made BatchTrace reject the legal execution
+\* "job 1 fails and records, job 2 - already running - cancels": specs/conc/selftest/batch_cancel_after_store.ndjson.)
+UserCancel == /\ AllowUserCancel
               /\ cancel' = TRUE
               /\ UNCHANGED <<outcome, stopOnError, di, dpc, queue, chanOpen, wst, wjob, jst, jres, todo, running,
                              completed, failed, resq, senders, results, summary, opRuns, recorded, startedAtRecord, preCancel>>
